@@ -452,8 +452,12 @@ pub fn keygen<const N: usize>(seed: [u8; 32]) -> (SecretKey<N>, PublicKey<N>) {
 /// [1]: https://falcon-sign.info/falcon.pdf
 pub fn sign<const N: usize>(m: &[u8], sk: &SecretKey<N>) -> Signature<N> {
     let mut rng = thread_rng();
+    #[cfg(feature = "verif-hooks")]
+    let mut rng = crate::verif_hooks::HookRng::new(rng);
     let mut r = [0u8; 40];
     rng.fill_bytes(&mut r);
+    #[cfg(feature = "verif-hooks")]
+    crate::verif_hooks::trace_bytes("sign.salt", &r);
 
     let params = FalconVariant::from_n(N).parameters();
     let bound = params.sig_bound;
@@ -480,6 +484,8 @@ pub fn sign<const N: usize>(m: &[u8], sk: &SecretKey<N>) -> Signature<N> {
         rng.fill_bytes(&mut seed);
         let bold_s = loop {
             let z = ffsampling(&(t0.clone(), t1.clone()), &sk.tree, &params, &mut rng);
+            #[cfg(feature = "verif-hooks")]
+            crate::verif_hooks::trace_sign_z(&z.0, &z.1);
             let t0_min_z0 = t0.clone() - z.0;
             let t1_min_z1 = t1.clone() - z.1;
 
@@ -498,6 +504,8 @@ pub fn sign<const N: usize>(m: &[u8], sk: &SecretKey<N>) -> Signature<N> {
                     .map(|a| (a * a.conj()).re)
                     .sum::<f64>())
                 / (n as f64);
+            #[cfg(feature = "verif-hooks")]
+            crate::verif_hooks::trace_f64("sign.norm", length_squared);
 
             if length_squared > (bound as f64) {
                 continue;
@@ -513,6 +521,8 @@ pub fn sign<const N: usize>(m: &[u8], sk: &SecretKey<N>) -> Signature<N> {
                 .collect_vec(),
             params.sig_bytelen - 41,
         );
+        #[cfg(feature = "verif-hooks")]
+        crate::verif_hooks::trace_sign_s2(&s2, maybe_s.is_some());
 
         match maybe_s {
             Some(s) => {
@@ -1495,5 +1505,52 @@ mod test {
                 .map(|i| i.value())
                 .collect_vec()
         );
+    }
+}
+
+#[cfg(feature = "verif-hooks")]
+impl<const N: usize> SecretKey<N> {
+    /// verification hook: the basis [g, -f, G, -F] as stored
+    pub fn verif_b0(&self) -> [Vec<i16>; 4] {
+        self.b0.clone().map(|p| p.coefficients)
+    }
+    /// verification hook: build a key from a basis exactly as `generate_from_seed` does after `gen_b0`
+    pub fn verif_from_b0(b0: [Vec<i16>; 4]) -> Self {
+        Self::from_b0(b0.map(Polynomial::new))
+    }
+    /// verification hook: `gen_b0`, unchanged
+    pub fn verif_gen_b0(seed: [u8; 32]) -> [Vec<i16>; 4] {
+        Self::gen_b0(seed).map(|p| p.coefficients)
+    }
+    /// verification hook: the leaf values of the signing tree, left to right
+    pub fn verif_tree_leaves(&self) -> Vec<f64> {
+        fn walk(t: &LdlTree, out: &mut Vec<f64>) {
+            match t {
+                LdlTree::Branch(_, l, r) => {
+                    walk(l, out);
+                    walk(r, out);
+                }
+                LdlTree::Leaf(v) => out.push(v[0].re),
+            }
+        }
+        let mut out = vec![];
+        walk(&self.tree, &mut out);
+        out
+    }
+}
+
+#[cfg(feature = "verif-hooks")]
+impl<const N: usize> PublicKey<N> {
+    /// verification hook: stored representatives of h
+    pub fn verif_h(&self) -> Vec<u32> {
+        self.h.coefficients.iter().map(|c| c.verif_raw()).collect()
+    }
+}
+
+#[cfg(feature = "verif-hooks")]
+impl<const N: usize> Signature<N> {
+    /// verification hook: (salt, compressed s2)
+    pub fn verif_parts(&self) -> ([u8; 40], Vec<u8>) {
+        (self.r, self.s.clone())
     }
 }
